@@ -109,8 +109,8 @@ def gobs(s):
 
 def cfg_literal(known):
     # d_cache_not_reloaded is a fact of the code (the cache starts empty), harmless for gating on its own: always tried on and off
-    # d_cache_deferred is not a fact of the code: never part of the current set
-    return "{| d_cache_failed_events := %s; d_cache_not_reloaded := true; d_logout_reject_unpauses := %s; d_cache_deferred := false |}" % tuple(
+    # d_cache_deferred / a non-injective d_cache_key are not facts of the code: never part of the current set
+    return "{| d_cache_failed_events := %s; d_cache_not_reloaded := true; d_logout_reject_unpauses := %s; d_manage_reject_only := false; d_cache_key := fun i => i; d_cache_deferred := false |}" % tuple(
         gbool(FLAG_FINDING[f] in known) for f in ("d_cache_failed_events", "d_logout_reject_unpauses"))
 
 
@@ -150,8 +150,10 @@ def judge(ctx, pairs, known, tag="C16"):
 # ----------------------------------------------------------------------------- generators
 
 CHAINS = [1, 2, 3]
-SVCS = {1: [10, 11, 12], 2: [20, 21], 3: [30]}
+# ids 10c+8 / 10c+9: one contract-address-like service id in checksum spelling and in lower case (two services)
+SVCS = {1: [10, 11, 12], 2: [20, 21, 28, 29], 3: [30]}
 ALL_SVCS = [s for c in CHAINS for s in SVCS[c]]
+POOL = [10, 10, 11, 12, 20, 20, 21, 28, 29]
 
 
 def setup_prefix(r, rich=True):
@@ -166,7 +168,7 @@ def setup_prefix(r, rich=True):
 
 def rand_black(r):
     k = r.choice([0, 0, 1, 1, 2])
-    return sorted(r.sample([10, 11, 20, 21], k))
+    return sorted(r.sample([10, 11, 20, 21, 28, 29], k))
 
 
 def rand_op(r):
@@ -179,9 +181,9 @@ def rand_op(r):
         c = r.choice(CHAINS)
         return [2, c, r.choice(SVCS[c]), rand_black(r)]
     if x < 0.50:
-        return [3, r.choice([0, 1, 1, 2, 2, 3]), r.choice(ALL_SVCS[:5]), rand_black(r)]
+        return [3, r.choice([0, 1, 1, 2, 2, 3]), r.choice(POOL), rand_black(r)]
     if x < 0.55:
-        return [4, r.choice(ALL_SVCS[:5]), rand_black(r)]
+        return [4, r.choice(POOL), rand_black(r)]
     if x < 0.60:
         return [r.choice([5, 6, 7, 7]), r.choice([1, 2]), r.choice([0, 1, 2, 3, 3, 4])]
     if x < 0.63:
@@ -244,8 +246,8 @@ def pack_some(r, ops, p=0.35):
 
 
 def rand_ibtp(r):
-    src = r.choice(ALL_SVCS[:5])
-    dst = r.choice([s for s in ALL_SVCS[:5] if s != src])
+    src = r.choice(POOL)
+    dst = r.choice([s for s in POOL if s != src])
     return [12, src, dst]
 
 
@@ -296,7 +298,124 @@ def scenario_histories():
     # withdraw, logout of a service and re-registration attempts
     out.append(S + [[3, 3, 10, []], T, [11, 0], T, [3, 3, 10, []], [10, 0, True], T, [12, 20, 10], [2, 1, 10, []], [3, 2, 10, []]])
     out += packed_scenarios()
+    out += interleaved_scenarios()
+    out += case_twins()
     return out
+
+
+def interleaved(r, svc=None, low=None, chain_step=None, end=None, tail=None):
+    """concurrent proposals of different priority on ONE service with a transition of its appchain in between:
+    (1) a freeze / update / activate proposal of the service is pending, (2) its logout is submitted and locks it,
+    (3) the appchain becomes unusable, (4) the logout is rejected or withdrawn - governance restores the locked
+    proposal and tells the manager ITS event name, not "reject" - (5) the restored proposal is decided, the appchain
+    comes back or is logged out; requests from and to the service all along."""
+    i = svc if svc is not None else r.choice([10, 10, 11, 20])
+    c = i // 10
+    other = 20 if c == 1 else 10
+    tr = lambda: r.choice([[12, i, other], [12, other, i]])
+    both = [[12, i, other], [12, other, i]]
+    ops = [[0, 1], [10, 0, True], [0, 2], [10, 0, True], [2, 1, 10, []], [10, 0, True], [2, 2, 20, []], [10, 0, True]]
+    if i == 11:
+        ops += [[2, 1, 11, []], [10, 0, True]]
+    low = low if low is not None else r.choice(["freeze", "update", "activate"])
+    if low == "freeze":
+        ops += [[3, 1, i, []]]
+    elif low == "update":
+        ops += [[3, 0, i, [other] if r.random() < 0.5 else []]]
+    else:
+        ops += [[3, 1, i, []], [10, 0, True], tr(), [3, 2, i, []]]
+    ops += [tr(), [3, 3, i, []], tr()]
+    chain_step = chain_step if chain_step is not None else r.choice(["freeze", "freeze", "logout-pending", "update-pending", "rule-pending", "none"])
+    k = 0
+    if chain_step == "freeze":
+        ops += [[1, 1, c], [10, 0, True]]
+    elif chain_step == "logout-pending":
+        ops += [[1, 3, c]]
+        k = 1
+    elif chain_step == "update-pending":
+        ops += [[1, 0, c]]
+        k = 1
+    elif chain_step == "rule-pending":
+        ops += [[7, c, 1]]
+        k = 1
+    ops += both
+    end = end if end is not None else r.choice(["reject", "reject", "withdraw", "approve"])
+    dec = {"reject": [10, k, False], "withdraw": [11, k], "approve": [10, k, True]}[end]
+    if r.random() < 0.3:
+        ops += pack(dec, [12, i, other], [12, other, i])
+    else:
+        ops += [dec] + both
+    for t in (tail if tail is not None else [r.choice(["low-approve", "low-reject", "chain-approve", "chain-reject", "chain-activate", "restart", "chain-logout"]) for _ in range(3)]):
+        if t == "low-approve":
+            ops += [[10, r.choice([0, 0, 1]), True]]
+        elif t == "low-reject":
+            ops += [[10, r.choice([0, 0, 1]), False]]
+        elif t == "chain-approve":
+            ops += [[10, 0, True]]
+        elif t == "chain-reject":
+            ops += [[10, 0, False]]
+        elif t == "chain-activate":
+            ops += [[1, 2, c], [10, 0, True]]
+        elif t == "chain-logout":
+            ops += [[1, 3, c], [10, 0, True]]
+        else:
+            ops += [[13]]
+        ops += both
+    return ops
+
+
+def interleaved_scenarios():
+    """the grid named by the reviewers, always run"""
+    class R:  # no randomness left open
+        def random(self):
+            return 0.9
+
+        def choice(self, xs):
+            return xs[0]
+    out = []
+    for low in ("freeze", "update", "activate"):
+        for chain_step in ("freeze", "logout-pending", "update-pending"):
+            for end in ("reject", "withdraw"):
+                out.append(interleaved(R(), 10, low, chain_step, end, ["low-approve", "chain-approve" if chain_step != "freeze" else "chain-activate", "restart"]))
+    return out
+
+
+def case_twins(r=None):
+    """service ids that differ only in the case of their letters (28 / 29): one registered and the other not, both
+    registered and one of them frozen / logged out / refusing the source while the other posts events; warm cache
+    and after a restart"""
+    S = [[0, 1], [10, 0, True], [0, 2], [10, 0, True], [2, 1, 10, []], [10, 0, True], [2, 2, 20, []], [10, 0, True]]
+    A = [10, 0, True]
+    probe = lambda: [[12, 10, 28], [12, 10, 29], [12, 28, 10], [12, 29, 10]]
+    if r is None:
+        out = []
+        for x, y in ((28, 29), (29, 28)):
+            out.append(S + [[2, 2, x, []], A] + probe() + [[12, 20, y], [13]] + probe())
+            for ev in (1, 3):
+                out.append(S + [[2, 2, x, []], A, [2, 2, y, []], A] + probe() + [[3, ev, x, []], A] + probe() + [[4, y, []]] + probe()
+                           + [[13]] + probe() + [[4, y, [10]]] + probe())
+            out.append(S + [[2, 2, x, []], A, [2, 2, y, []], A, [4, x, [10]]] + probe() + [[4, y, []]] + probe() + [[13]] + probe())
+            out.append(S + [[2, 2, x, []], A, [2, 2, y, []], A, [1, 1, 2], A, [1, 2, 2], A] + probe() + [[3, 1, x, []], A]
+                       + pack([3, 0, y, [10]], [12, 10, x]) + pack(A, [12, 10, x], [12, x, 10]) + probe())
+        return out
+    ops = list(S)
+    x, y = r.choice([(28, 29), (29, 28)])
+    ops += [[2, 2, x, []], [10, 0, r.random() < 0.9]]
+    if r.random() < 0.6:
+        ops += [[2, 2, y, [10] if r.random() < 0.3 else []], [10, 0, r.random() < 0.8]]
+    for _ in range(r.choice([3, 4, 5])):
+        z = r.choice([x, x, y])
+        k = r.random()
+        if k < 0.3:
+            ops += [[3, r.choice([1, 1, 2, 3, 0]), z, [10] if r.random() < 0.3 else []], [10, 0, r.random() < 0.75]]
+        elif k < 0.55:
+            ops += [[4, z, r.choice([[], [10], [20]])]]
+        elif k < 0.65:
+            ops += [[1, r.choice([1, 2, 3]), 2], [10, 0, r.random() < 0.7]]
+        elif k < 0.75:
+            ops += [[13]]
+        ops += r.sample(probe(), 2) + ([[12, 20, z]] if r.random() < 0.3 else [])
+    return pack_some(r, ops)
 
 
 def packed_scenarios():
@@ -467,7 +586,11 @@ def run(ctx):
     ncorpus = len(hists)
     hists += scenario_histories()
     nscen = len(hists) - ncorpus
-    n_rand, n_mal = (420, 60) if ctx.quick else (6000, 600)
+    n_rand, n_mal = (340, 50) if ctx.quick else (6000, 600)
+    n_inter = 60 if ctx.quick else 900
+    hists += [interleaved(r) for _ in range(n_inter)]
+    n_twin = 40 if ctx.quick else 600
+    hists += [case_twins(r) for _ in range(n_twin)]
     hists += [gen_history(r, r.choice([14, 20, 28, 36])) for _ in range(n_rand)]
     hists += [gen_malformed(r, r.choice([8, 16])) for _ in range(n_mal)]
     # audit logging must not change any of this: every fourth history runs with EnableAudit on
@@ -516,7 +639,7 @@ def run(ctx):
             else:
                 ctx.broken("correspondence:judge_hist", "history %d: %s; ops %s" % (hn, what, json.dumps(h)[:600]))
     ctx.extra["distribution"] = dist
-    ctx.extra["histories"] = dict(corpus=ncorpus, scenarios=nscen, generated=n_rand, malformed=n_mal, with_audit_enabled=sum(audits))
+    ctx.extra["histories"] = dict(corpus=ncorpus, scenarios=nscen, generated=n_rand, interleaved=n_inter, case_twins=n_twin, malformed=n_mal, with_audit_enabled=sum(audits))
     return ctx.finish(rule="corpus + fixed scenario histories (every chain/service operation x approve/reject with requests before, during, after and across a restart; "
                            "registration approved after the chain froze; permission-only update; rejected logout; rule and role flows) + seeded random governed histories "
                            "(setup prefix, then weighted operations, decisions and requests) + a malformed stream; non-trivial = at least one accepted and one refused "
